@@ -119,8 +119,11 @@ ANY_OPS = ["add", "sub", "mul", "truediv", "floordiv", "mod", "pow", "and_",
 ANY_UNOPS = ["neg", "pos", "invert", "abs"]
 
 
-def _binop_params(W):
-  op = W.pick("anyop", ANY_OPS)
+def _binop_params(W, two_streams=False):
+  # (two tagged streams: no pow / lshift, whose results grow without bound
+  # along a chain and would only measure big-number arithmetic)
+  op = W.pick("anyop", [o for o in ANY_OPS
+                        if not (two_streams and o in ("pow", "lshift"))])
   refl = bool(W.choose("reflected", 2)) and op not in (
     "pow", "lshift", "lt", "le", "eq", "ne", "gt", "ge")
   return {"op": op, "refl": refl}
@@ -140,10 +143,12 @@ def _const_of(p):
 stage("anyop_const", params=_binop_params, weight=3)(
   (lambda P, i, p: _binop(p, _const_of(p))(S(P, i[0])),
    lambda i, p: M.m_each(i)))
-stage("anyop_streams", extra=("num",), params=_binop_params, weight=3)(
+stage("anyop_streams", extra=("num",),
+      params=lambda W: _binop_params(W, True), weight=3)(
   (lambda P, i, p: _binop(dict(p, refl=False))(S(P, i[0]), S(P, i[1])),
    lambda i, p: M.m_lockstep(i)))
-stage("anyop_raw_operand", extra=("num",), params=_binop_params, weight=2)(
+stage("anyop_raw_operand", extra=("num",),
+      params=lambda W: _binop_params(W, True), weight=2)(
   (lambda P, i, p: _binop(p)(S(P, i[0]), i[1]),
    lambda i, p: M.m_lockstep(i)))
 stage("anyop_unary", params=lambda W: {"op": W.pick("unop", ANY_UNOPS)},
